@@ -254,6 +254,11 @@ def finish(pid, tier, seed, mod, shards, wall):
     with open(ev_path, "w") as f:
         json.dump(jsonable(evidence), f, indent=1)
 
+    kinds = {}
+    for v in new:
+        kinds[str(v.get("kind"))] = kinds.get(str(v.get("kind")), 0) + 1
+    if kinds:
+        lines.append("# violation kinds: " + ", ".join(f"{k} x{n}" for k, n in sorted(kinds.items(), key=lambda kv: -kv[1])))
     for ln in lines:
         print(ln)
     summary = (f"{pid} {tier} seed={seed}: evaluations={evaluations} distinct_nontrivial={len(keys)} "
